@@ -16,6 +16,8 @@ pub struct Pin {
     pub default_v: Option<String>,
     pub default_z: Option<String>,
     pub has_default: bool,
+    /// the `Label` entry is there but its value was deleted (`<entry><string>Label</string></entry>`): the pin has no label
+    pub label_key_only: bool,
 }
 
 #[derive(Clone, Debug)]
@@ -119,7 +121,9 @@ pub fn render(c: &Circuit, r: &mut Prng) -> String {
             s.push_str(nl(r));
             s.push_str("<elementAttributes>");
             let mut entries: Vec<String> = vec![];
-            if let Some(l) = &p.label {
+            if p.label_key_only {
+                entries.push("<entry><string>Label</string></entry>".to_string());
+            } else if let Some(l) = &p.label {
                 entries.push(format!("<entry><string>Label</string><string>{}</string></entry>", cdata(l, r)));
             }
             if let Some(b) = &p.bits {
@@ -173,7 +177,7 @@ pub struct ESig {
 
 /// the property's reading of a description, written independently of the loader
 pub fn expected(c: &Circuit) -> Result<(Vec<ESig>, Vec<(String, String)>), &'static str> {
-    let labelled = |p: &Pin| p.label.as_ref().filter(|l| !l.is_empty()).cloned();
+    let labelled = |p: &Pin| if p.label_key_only { None } else { p.label.as_ref().filter(|l| !l.is_empty()).cloned() };
     let bits = |p: &Pin| p.bits.as_ref().and_then(|b| b.parse::<usize>().ok()).unwrap_or(1);
     let mut sigs: Vec<ESig> = vec![];
     for p in c.pins.iter().filter(|p| p.kind == "In" || p.kind == "Clock") {
@@ -377,7 +381,8 @@ pub fn gen_circuit(r: &mut Prng) -> Circuit {
             2 => Some("TRUE".to_string()),
             _ => Some("false".to_string()),
         };
-        pins.push(Pin { kind, label, bits, default_v, default_z, has_default });
+        let label_key_only = r.chance(1, 25);
+        pins.push(Pin { kind, label, bits, default_v, default_z, has_default, label_key_only });
     }
     if r.chance(1, 10) {
         // two pins with the same label
